@@ -26,7 +26,7 @@ theorem waiter_returns_only_after_full_stop (g0 : G) (h0 : Initial g0) (sched : 
   have I := inv_run _ sched (inv_initial g0 h0)
   obtain ⟨h1, h12⟩ := (I.ws w hw).ret ok hok
   have hok' := okNow_of_stage I h12
-  simp only [okNow, Bool.and_eq_true, beq_iff_eq, hasPostStop_run] at hok'
+  simp only [okNow, snapshotOk, Bool.and_eq_true, beq_iff_eq, hasPostStop_run] at hok'
   exact ⟨h1, hok'.1, hok'.2⟩
 
 /-- What `ok` records: a waiter that returns in this step stores `okNow g`, the observation of the
